@@ -521,11 +521,115 @@ class ContextSuper(RuntimeVC):
         hs = out.st.get(self.stack)
         return (not any(i in (self.stack.id, self.blocks.id, self.ctx.id) for i, _ in out.st.written)) and hs.arr.eq(self.arr) and hs.n.eq(self.n)
 
-    posts = [("next_less_derived_or_undefined", p_result), ("stacks_not_modified", p_pure)]
+    def p_every_occurrence(self, pre, out):
+        """super() is asked by the definition that is being rendered, at WHATEVER depth m of the stack it sits: the result is the
+        definition at m+1 (undefined when m is the last).  Context.super only receives the function, so this needs the function to
+        occur once on the stack (a template that - conditionally - extends itself puts the same block function on it twice)."""
+        if out.raised:
+            return None
+        m = z3.Int("rendered_depth")
+        here = z3.And(0 <= m, m < self.n, z3.Select(self.arr, m) == self.current.t)
+        if A.calls(out, "environment.undefined"):
+            return z3.Implies(z3.And(z3.Select(self.dom, self.bname.t), here), m + 1 >= self.n)
+        f = out.st.get(out.value).fields
+        return z3.Implies(here, to_term(f.get("_depth"), "int") == m + 1)
+
+    posts = [("next_less_derived_or_undefined", p_result), ("stacks_not_modified", p_pure),
+             ("next_less_derived_for_every_occurrence", p_every_occurrence)]
 
     def concretize(self, model, pre, out):
         n = max(0, min(6, model_value(model, self.n)))
-        return {"vc": self.name, "stack_len": n}
+        return {"vc": self.name, "stack_len": n, "rendered_depth": model_value(model, z3.Int("rendered_depth")),
+                "first_index": model_value(model, z3.Int("first_index"))}
+
+    def finding_key(self, res):
+        w = res.witness or {}
+        if "every_occurrence" in res.name and w.get("rendered_depth") != w.get("first_index"):
+            return "same-function-twice-on-stack"
+        return "other"
+
+    def discharge(self, name, pc, cond, timeout, seed, pre, out):
+        r = RuntimeVC.discharge(self, name, pc, cond, timeout, seed, pre, out)
+        if r.status == "refuted" and isinstance(r.witness, dict):
+            r.witness["obligation"] = name
+        return r
+
+    def replay(self, w):
+        if "every_occurrence" in str((w or {}).get("obligation", "")):
+            return native_self_extension(w)
+        return native_inheritance(w)
+
+
+def _render_family(templates, cases, label):
+    import jinja2
+    from jinja2 import DictLoader
+    problems = []
+    for is_async in (False, True):
+        env = jinja2.Environment(loader=DictLoader(templates), enable_async=is_async)
+        for name, kw, want in cases:
+            try:
+                got = env.get_template(name).render(**kw)
+            except Exception as ex:
+                got = type(ex).__name__
+            if got != want:
+                problems.append(f"async={is_async} {name} ({templates[name]!r}) {kw or ''}: rendered {got!r}, expected {want!r}")
+    return (bool(problems), "; ".join(problems[:2]) or f"{label}: family renders as the statement demands")
+
+
+def native_required_anywhere(w=None):
+    """a required block fails when no descendant overrides it, whichever template of the chain declares it"""
+    t = {"a": "A[{% block b %}Ab{% endblock %}]", "root_req": "A[{% block b required %}{% endblock %}]",
+         "leaf_req": "{% extends 'a' %}{% block b required %}{% endblock %}", "mid_req": "{% extends 'a' %}{% block b required %}{% endblock %}",
+         "below_mid": "{% extends 'mid_req' %}", "redeclared": "{% extends 'root_req' %}{% block b required %}{% endblock %}", "below_re": "{% extends 'redeclared' %}",
+         "ok_over_mid": "{% extends 'mid_req' %}{% block b %}X{% endblock %}", "ok_over_re": "{% extends 'redeclared' %}{% block b %}Y{% endblock %}"}
+    cases = [("leaf_req", {}, "TemplateRuntimeError"), ("below_mid", {}, "TemplateRuntimeError"), ("below_re", {}, "TemplateRuntimeError"),
+             ("root_req", {}, "TemplateRuntimeError"), ("ok_over_mid", {}, "A[X]"), ("ok_over_re", {}, "A[Y]")]
+    return _render_family(t, cases, "required blocks")
+
+
+def native_outside_blocks(w=None):
+    """content outside blocks of a child template is not rendered: includes, call blocks, filter blocks, blocks nested in loops / with"""
+    t = {"base": "A[{% block b %}Ab{% endblock %}]", "x": "LEAK",
+         "inc": "{% extends 'base' %}{% include 'x' %}{% block b %}M{% endblock %}", "inc_nc": "{% extends 'base' %}{% include 'x' without context %}",
+         "inc_dyn": "{% if p %}{% extends p %}{% endif %}{% include 'x' %}{% block b %}M{% endblock %}",
+         "call": "{% extends 'base' %}{% macro m() %}<{{ caller() }}>{% endmacro %}{% call m() %}LEAK{% endcall %}",
+         "call_dyn": "{% if p %}{% extends p %}{% endif %}{% macro m() %}<{{ caller() }}>{% endmacro %}{% call m() %}C{% endcall %}",
+         "filt": "{% extends 'base' %}{% filter default('LEAK', true) %}text{% endfilter %}",
+         "filt_dyn": "{% if p %}{% extends p %}{% endif %}{% filter default('F', true) %}{% endfilter %}",
+         "for_block": "{% extends 'base' %}{% for i in [1, 2] %}{% block b %}M{% endblock %}{% endfor %}",
+         "with_block": "{% extends 'base' %}{% with v = 1 %}{% block b %}M{% endblock %}{% endwith %}",
+         "for_block_dyn": "{% if p %}{% extends p %}{% endif %}{% for i in [1, 2] %}{% block b %}M{% endblock %}{% endfor %}"}
+    cases = [("inc", {}, "A[M]"), ("inc_nc", {}, "A[Ab]"), ("inc_dyn", {"p": "base"}, "A[M]"), ("inc_dyn", {}, "LEAKM"),
+             ("call", {}, "A[Ab]"), ("call_dyn", {"p": "base"}, "A[Ab]"), ("call_dyn", {}, "<C>"),
+             ("filt", {}, "A[Ab]"), ("filt_dyn", {"p": "base"}, "A[Ab]"), ("filt_dyn", {}, "F"),
+             ("for_block", {}, "A[M]"), ("with_block", {}, "A[M]"), ("for_block_dyn", {"p": "base"}, "A[M]"), ("for_block_dyn", {}, "MM")]
+    return _render_family(t, cases, "content outside blocks")
+
+
+def native_block_names(w=None):
+    t = {"base": "{% block ﬁ %}LIG{% endblock %}|{% block fi %}PLAIN{% endblock %}", "child": "{% extends 'base' %}{% block fi %}X{% endblock %}",
+         "child2": "{% extends 'base' %}{% block ﬁ %}Y({{ super() }}){% endblock %}"}
+    return _render_family(t, [("base", {}, "LIG|PLAIN"), ("child", {}, "LIG|X"), ("child2", {}, "Y(LIG)|PLAIN")], "block names")
+
+
+def native_self_extension(w=None):
+    """a template that conditionally extends itself: the chain holds the same block function twice"""
+    import jinja2
+    from jinja2 import DictLoader
+    problems = []
+    for is_async in (False, True):
+        env = jinja2.Environment(loader=DictLoader({
+            "page": "{% if n is not defined %}{% set n = 1 %}{% extends 'page' %}{% endif %}R[{% block b %}<{% if super %}{{ super() }}{% endif %}>{% endblock %}]"}),
+            enable_async=is_async)
+        try:
+            got = env.get_template("page").render()
+        except RecursionError:
+            got = "RecursionError"
+        except Exception as ex:
+            got = type(ex).__name__
+        if got != "R[<<>>]":
+            problems.append(f"async={is_async}: a template extending itself once rendered {got!r}, expected 'R[<<>>]' (super() of the instance at depth 1 is undefined)")
+    return (bool(problems), "; ".join(problems[:2]) or "self-extension renders")
 
 
 class BlockRefInit(RuntimeVC):
@@ -745,7 +849,10 @@ class ContextDerived(RuntimeVC):
         self.dom = gm(st, self.blocks)[0]
         self.evc = A.obj(st, N.EvalContext, "eval_ctx")
         self.tname = sym("template_name", "str")
-        self.ctx = A.obj(st, R.Context, "self", fields={"blocks": self.blocks, "environment": self.env, "name": self.tname, "eval_ctx": self.evc})
+        self.gkeys = st.alloc(HSet(dom=z3.Const("self_globals_keys", z3.ArraySort(z3.StringSort(), z3.BoolSort())), size=z3.Int("self_n_globals"), kk="str"), initial=True)
+        self.tglobals = A.adict(st, "self_template_globals", "str", "obj")
+        self.ctx = A.obj(st, R.Context, "self", fields={"blocks": self.blocks, "environment": self.env, "name": self.tname, "eval_ctx": self.evc,
+                                                        "globals_keys": self.gkeys, "template_globals": self.tglobals})
         self.locals = A.adict(st, "locals", "str", "obj")
         return [self.ctx, self.locals], {}
 
@@ -806,6 +913,9 @@ OUTCHECK = z3.Bool("frame.require_output_check")
 def gen_pre(st, g, nd):
     """the generator's inheritance bookkeeping is symbolic: any number of extends seen so far, known or not"""
     st.assume(SOFAR >= 0, z3.Implies(KNOWN, SOFAR > 0))  # has_known_extends is only ever set together with the increment
+    # frame invariant (visit_Template: the root frame checks output iff the template has an extends; Frame.__init__ copies the
+    # flag to inner/soft frames): a top-level frame of a template in which an extends was already visited checks its output
+    st.assume(z3.Implies(z3.And(TOP, SOFAR > 0), OUTCHECK))
     FI = C.CodeGenerator._FinalizeInfo
     st.get(g.gen).fields["_finalize"] = st.alloc(HObj(FI, fields={"const": None, "src": None}), initial=True)
 
@@ -894,21 +1004,22 @@ def stream_loop(stmts, is_async, buffer, source, what):
 def block_pred(sc, tree, ph, txt):
     if sc.outcome == "raise":
         return [f"visit_Block raises {sc.value!r}"]
-    top, known = decide(sc, TOP), decide(sc, KNOWN)
-    if top is True and known is True and not tree.body:
+    # The statement may run in a template that already has a parent iff the frame belongs to the root render function of a
+    # template with extends (require_output_check: inherited by the frames of loops / with blocks / ... nested in it, cleared in
+    # macros, set blocks and block functions) and an extends precedes it.  Then the block must not be rendered in place.
+    in_child, known = decide(sc, z3.And(OUTCHECK, SOFAR > 0)), decide(sc, KNOWN)
+    if in_child is True and known is True and not tree.body:
         return []  # nothing emitted: the parent's layout calls the block (otherwise it must at least be guarded, checked below)
-    if top is None:
-        return ["path does not decide frame.toplevel"]
+    if in_child is None:
+        return [f"[in-place-below-toplevel] whether the block is rendered in place must follow frame.require_output_check and the extends seen so far; "
+                f"this path decides only {[str(c)[:40] for c in sc.pc if 'frame.' in str(c) or 'self.' in str(c)][:4]}: in a frame below the top level of a "
+                f"child template (loop, with block) the block is rendered in place as well: {txt[:80]!r}"]
     body = list(tree.body)
     fails = []
-    if top:
-        sofar = decide(sc, SOFAR > 0)
-        if sofar is None:
-            return ["path does not decide extends_so_far > 0"]
-        if sofar:
-            if not (len(body) == 1 and isinstance(body[0], ast.If) and is_parent_none_test(body[0].test) and not body[0].orelse):
-                return [f"after a conditional extends a top-level block must be guarded by `if parent_template is None:` : {txt!r}"]
-            body = list(body[0].body)
+    if in_child:
+        if not (len(body) == 1 and isinstance(body[0], ast.If) and is_parent_none_test(body[0].test) and not body[0].orelse):
+            return [f"after an extends a block outside block functions must be guarded by `if parent_template is None:` : {txt!r}"]
+        body = list(body[0].body)
     if "parent_template" in names_in(ast.Module(body=body, type_ignores=[])):
         fails.append("unexpected reference to parent_template")
     required = decide(sc, z3.Bool("node.required"))
@@ -1059,6 +1170,8 @@ def run_template_shape(shape, n_out_children=1):
     from pyvc import extract
     I = Interp()
     emit.install(I, inline_visitors=(N.Extends, N.Block, N.Output, N.If, N.Keyword, N.Pair, N.Operand))
+    import unicodedata
+    I.extra_pure = set(I.extra_pure) | {unicodedata.normalize}  # pure library function on the (concrete) block names
     st = State()
     g = emit.Gen(st, buffer=None, gen_fields={"defer_init": False})
     FI = C.CodeGenerator._FinalizeInfo
@@ -1068,9 +1181,9 @@ def run_template_shape(shape, n_out_children=1):
         p = f"node.body[{i}]"
         if k == "E":
             kids.append(emit.make_node(st, N.Extends, p))
-        elif k == "B":
-            # the block's own flags / body are the subject of C04.emit.block; here: plain block, empty body, `super` used
-            kids.append(emit.make_node(st, N.Block, p, fields={"name": f"b{i}", "scoped": False, "required": False,
+        elif k in ("B", "R"):
+            # the block's own flags / body are the subject of C04.emit.block; here: plain block ('R': required), empty body, `super` used
+            kids.append(emit.make_node(st, N.Block, p, fields={"name": f"b{i}", "scoped": False, "required": k == "R",
                                                                 "body": st.alloc(HList(items=[]), initial=True)}))
         elif k == "O":
             nodes = st.alloc(HList(items=[emit.make_node(st, N.Name, f"{p}.nodes[{j}]", kind="expr") for j in range(n_out_children)]), initial=True)
@@ -1372,13 +1485,22 @@ SHAPES = [(), ("B",), ("O", "B"), ("B", "B"), ("E",), ("E", "B"), ("E", "O", "B"
           ("IE", "O", "B"), ("IE", "E"), ("E", "IE", "O"), ("IE", "IE")]
 
 
+class KeyedEmitTask(EmitTask):
+    """EmitTask whose known-finding key is the failure category written in [brackets] at the start of the failure text"""
+
+    def finding_key(self, res):
+        import re
+        m = re.search(r"\[([a-z][a-z0-9_.-]+)\]", res.detail or "")
+        return m.group(1) if m else "other"
+
+
 def emit_task(name, meth, cls, pred, **kw):
-    return EmitTask("C04", name, f"jinja2.compiler:CodeGenerator.{meth}", cls, pred, mode="stmts", buffers=(None, "t_buf"),
+    return KeyedEmitTask("C04", name, f"jinja2.compiler:CodeGenerator.{meth}", cls, pred, mode="stmts", buffers=(None, "t_buf"),
                     replay_fn=native_inheritance, gen_fields=GEN_FIELDS, pre=gen_pre, **kw)
 
 
 EMIT_TASKS = [
-    emit_task("C04.emit.block", "visit_Block", N.Block, block_pred, min_paths=20),
+    emit_task("C04.emit.block", "visit_Block", N.Block, block_pred, min_paths=20),  # (replay: see BLOCK_REPLAY below)
     emit_task("C04.emit.extends", "visit_Extends", N.Extends, extends_pred, min_paths=6),
 ] + [emit_task(f"C04.emit.output[{n} children]", "visit_Output", N.Output, output_pred, node_fields=output_fields(n), min_paths=3) for n in (1, 2)] \
   + [TemplateShapeTask(s) for s in SHAPES]
@@ -1400,25 +1522,37 @@ FOR_SHAPES = {
 }
 
 
-def build_for_body(st, shape, path, blocks, direct=None):
-    """concrete statement list for a shape; `blocks` collects every Block in document order"""
+def build_for_body(st, shape, path, blocks, every=None):
+    """concrete statement list for a shape; `blocks` collects every Block, `every` every node, in document order.
+    'B' block, 'S' other statement, 'I' include, 'M' import, 'F' from-import (their with_context flag symbolic), (Container, inner)"""
     out = []
+    every = every if every is not None else []
     for i, k in enumerate(shape):
         p = f"{path}[{i}]"
         if k == "B":
             r = emit.make_node(st, N.Block, p, fields={"name": f"b{len(blocks)}", "body": st.alloc(HList(items=[]), initial=True)})
             blocks.append(r)
+            every.append(r)
         elif k == "S":
             r = emit.make_node(st, N.ExprStmt, p, kind="stmt")  # some statement that is not a block
+            every.append(r)
+        elif k in ("I", "M", "F"):
+            r = emit.make_node(st, {"I": N.Include, "M": N.Import, "F": N.FromImport}[k], p)
+            every.append(r)
         else:
             cls, inner = k
-            kids = build_for_body(st, inner, p + ".body", blocks)
+            f = {}
+            r = emit.make_node(st, getattr(N, cls), p, fields=f)
+            every.append(r)
+            kids = build_for_body(st, inner, p + ".body", blocks, every)
             f = {"body": st.alloc(HList(items=kids), initial=True)}
             if cls == "If":
                 f.update(elif_=st.alloc(HList(items=[]), initial=True), else_=st.alloc(HList(items=[]), initial=True))
             if cls == "With":
                 f.update(targets=st.alloc(HList(items=[]), initial=True), values=st.alloc(HList(items=[]), initial=True))
-            r = emit.make_node(st, getattr(N, cls), p, fields=f)
+            if cls == "For":
+                f.update(else_=st.alloc(HList(items=[]), initial=True), test=None, recursive=False)
+            st.get(r).fields.update(f)
         out.append(r)
     return out
 
@@ -1431,8 +1565,10 @@ class ForScopedBlockTask(Task):
     unscoped - i.e. a scoped block anywhere below the loop gets `loop` (declared on the loop frame, bound by (Async)LoopContext)."""
     kind = "emission"
 
+    shapes = None
+
     def __init__(self, label):
-        self.label, self.shape = label, FOR_SHAPES[label]
+        self.label, self.shape = label, (self.shapes or FOR_SHAPES)[label]
         self.prop = "C04"
         self.name = f"C04.emit.for.scoped_block_sees_loop[{label}]"
         self.bound_text = "shape bound: the loop body is this concrete tree (block flags, other statements, target, iterable, async flag symbolic); no loop filter / else / recursion"
@@ -1444,19 +1580,17 @@ class ForScopedBlockTask(Task):
         info = {}
 
         def fields(st):
-            blocks = []
-            kids = build_for_body(st, self.shape, "node.body", blocks)
-            info["blocks"], info["kids"] = blocks, kids
+            blocks, every = [], []
+            kids = build_for_body(st, self.shape, "node.body", blocks, every)
+            info["blocks"], info["kids"], info["every"] = blocks, kids, every
             return {"body": st.alloc(HList(items=kids), initial=True), "else_": st.alloc(HList(items=[]), initial=True), "test": None, "recursive": False,
                     "target": emit.make_node(st, N.Name, "node.target", fields={"ctx": "store"}), "iter": emit.make_node(st, N.Name, "node.iter")}
 
         def configure(I):
             def find_all(I_, s, args, kwargs, node):
-                if args[1] is N.Block:
-                    return [(s, tuple(info["blocks"]))]
                 if args[1] is N.Name:
                     return [(s, ())]  # the scan for an assignment to `loop` in the target is C07's obligation
-                raise Unsupported(f"find_all({args[1]!r})", node)
+                return [(s, tuple(r for r in info["every"] if issubclass(s.get(r).cls, args[1])))]
 
             def iter_child_nodes(I_, s, args, kwargs, node):
                 only = kwargs.get("only")
@@ -1473,6 +1607,7 @@ class ForScopedBlockTask(Task):
             for sc in scs:
                 sc.buffer = buf
                 sc.blocks = [sc.st.get(b).path for b in info["blocks"]]
+                sc.ctx_nodes = [sc.st.get(r).path for r in info["every"] if sc.st.get(r).cls in (N.Include, N.Import, N.FromImport)]
                 sc.kid_paths = [sc.st.get(k).path for k in info["kids"]]
             out += scs
         return out
@@ -1499,6 +1634,10 @@ class ForScopedBlockTask(Task):
                 if not sc.holds(z3.Not(z3.Bool(b + ".scoped"))):
                     fails.append(f"the block at {b} may be scoped, but this loop does not create the special `loop` variable: an override of the block "
                                  f"cannot see `loop` (a scoped block ANYWHERE below the loop must make it an extended loop)")
+            for c in sc.ctx_nodes:
+                if not sc.holds(z3.Not(z3.Bool(c + ".with_context"))):
+                    fails.append(f"[context-without-loop] the include / import at {c} may be `with context`, but this loop does not create the special `loop` "
+                                 f"variable: the target template is given the locals and finds no `loop` (or an enclosing loop's)")
         return fails
 
     def run(self, tier, seed):
@@ -1531,6 +1670,166 @@ class ForScopedBlockTask(Task):
 
 EMIT_TASKS += [ForScopedBlockTask(k) for k in FOR_SHAPES]
 
+
+# ================================================================== hunt round: content outside blocks / required blocks / block function names
+
+def configure_macro_markers(I):
+    """macro_body / macro_def through their contracts (C06.emit.*): markers in the stream"""
+    from pyvc.values import Event
+
+    def macro_body(I_, st, args, kwargs, node):
+        fr = st.alloc(HObj(C.Frame, path="macro_frame"))
+        ref = st.alloc(HObj(C.MacroRef, path="macro_ref"))
+        st.trace.append(Event("call", "macro_body", args[1:], kwargs, (fr, ref)))
+        return [(s, (fr, ref)) for s, _ in I_.call_method(st, args[0], "writeline", ["__macro_body__()"], {}, node)]
+
+    def macro_def(I_, st, args, kwargs, node):
+        return I_.call_method(st, args[0], "write", ["__macro_def__"], {}, node)
+
+    I.specs["CodeGenerator.macro_body"] = macro_body
+    I.specs["CodeGenerator.macro_def"] = macro_def
+
+
+def output_check_pred(what):
+    """C04.emit.output_check.<visitor>: a statement that produces output (include, call block, filter block) honours the frame's
+    require_output_check exactly like visit_Output: in a frame of the root function of an extending template it emits nothing once a
+    root-level extends is known (or at least the guard), and is wrapped in `if parent_template is None:` otherwise; in any other frame
+    it does not mention parent_template."""
+    def pred(sc, tree, ph, txt):
+        if sc.outcome == "raise":
+            return [f"{what} raises {sc.value!r}"]
+        chk, known = decide(sc, OUTCHECK), decide(sc, KNOWN)
+        if not tree.body:
+            return [] if (chk and known) else [f"{what} emitted nothing although the statement must run"]
+        if chk is None:
+            return [f"[ignores-require_output_check] {what} writes to the output without looking at frame.require_output_check: at the top level of a "
+                    f"template that extends another one this content outside blocks is rendered: {txt[:90]!r}"]
+        body = list(tree.body)
+        if chk:
+            if not (len(body) == 1 and isinstance(body[0], ast.If) and is_parent_none_test(body[0].test) and not body[0].orelse):
+                return [f"{what} in a frame that checks its output must be guarded by `if parent_template is None:` : {txt[:120]!r}"]
+            body = list(body[0].body)
+        if "parent_template" in names_in(ast.Module(body=body, type_ignores=[])):
+            return ["unexpected reference to parent_template"]
+        if not body:
+            return [f"{what}: empty guarded body"]
+        return []
+    return pred
+
+
+def include_name_fields(st):
+    return {"template": emit.make_node(st, N.Name, "node.template")}
+
+
+OUTPUT_CHECK_TASKS = [
+    KeyedEmitTask("C04", "C04.emit.output_check.visit_Include", "jinja2.compiler:CodeGenerator.visit_Include", N.Include, output_check_pred("visit_Include"),
+                  mode="stmts", buffers=(None,), replay_fn=native_outside_blocks, gen_fields=GEN_FIELDS, pre=gen_pre, node_fields=include_name_fields, min_paths=8),
+    KeyedEmitTask("C04", "C04.emit.output_check.visit_CallBlock", "jinja2.compiler:CodeGenerator.visit_CallBlock", N.CallBlock, output_check_pred("visit_CallBlock"),
+                  mode="stmts", buffers=(None,), replay_fn=native_outside_blocks, gen_fields=GEN_FIELDS, pre=gen_pre, configure=configure_macro_markers, min_paths=1),
+    KeyedEmitTask("C04", "C04.emit.output_check.visit_FilterBlock", "jinja2.compiler:CodeGenerator.visit_FilterBlock", N.FilterBlock, output_check_pred("visit_FilterBlock"),
+                  mode="stmts", buffers=(None,), replay_fn=native_outside_blocks, gen_fields=GEN_FIELDS, pre=gen_pre, min_paths=2),
+]
+
+
+class RequiredBlockTask(Task):
+    """C04.emit.required.block_function_fails[<shape>]: a required block fails whenever it is the definition that gets rendered,
+    whichever template of the chain declared it: its block function raises TemplateRuntimeError before anything else (the
+    `len(context.blocks[name]) <= 1` test of visit_Block only exists where the ROOT of the chain declares the block).  'R' in a
+    shape is a required block."""
+    kind = "emission"
+
+    def __init__(self, shape):
+        self.shape = tuple(shape)
+        self.prop = "C04"
+        self.name = f"C04.emit.required.block_function_fails[{','.join(shape)}]"
+        self.bound_text = "shape bound: Template.body is this concrete list of symbolic children"
+
+    def replay(self, w):
+        return native_required_anywhere(w)
+
+    def finding_key(self, res):
+        return "required-block-function-renders"
+
+    def run(self, tier, seed):
+        try:
+            scs = run_template_shape(self.shape)
+        except Unsupported as ex:
+            return [Res(self.name + ".engine", "unknown", "pyvc-emit", 0, f"unsupported: {ex}", self.kind)]
+        res = []
+        names = [f"b{i}" for i, k in enumerate(self.shape) if k == "R"]
+        for i, sc in enumerate(scs):
+            fails = []
+            if sc.outcome == "raise":
+                fails.append(f"visit_Template raises {sc.value!r}")
+            else:
+                txt, ph = sc.texts()[0]
+                tree = emit.parse_stmts(txt)
+                funcs = {n.name: n for n in tree.body if isinstance(n, (ast.FunctionDef, ast.AsyncFunctionDef))}
+                for b in names:
+                    f = funcs.get("block_" + b)
+                    if f is None:
+                        fails.append(f"no function for required block {b}")
+                        continue
+                    real = [s for s in f.body if not (isinstance(s, ast.Assign) and getattr(s.targets[0], "id", "") in ("resolve", "undefined", "concat", "cond_expr_undefined"))
+                            and not (isinstance(s, ast.If) and isinstance(s.test, ast.Constant))]
+                    if not (real and is_raise_runtime_error(real[0], "Required block")):
+                        fails.append(f"the function of required block {b} renders (first statement: {ast.unparse(real[0])[:60] if real else None}); when no descendant "
+                                     f"overrides it and the chain's root does not declare it required, nothing fails")
+            res.append(Res(f"{self.name}#p{i}", "refuted" if fails else "discharged", "pyvc-emit", 0, "; ".join(fails[:2]), self.kind,
+                           {"shape": list(self.shape)} if fails else None))
+        return res
+
+
+def block_function_names(task, tier, seed):
+    """C04.emit.template.block_function_names: blocks with different names are compiled to different PYTHON identifiers (Python
+    compares identifiers in NFKC form), and `blocks` maps each name to its own function - or the template is rejected.  Table over
+    name pairs on the real compiler (names are data of the template; the pairs cover NFKC-equal, NFKC-stable and escaped-looking names)."""
+    import unicodedata
+    import jinja2
+    rs = []
+    pairs = [("ﬁ", "fi"), ("fi", "ﬁ"), ("ª", "a"), ("ℌ", "H"), ("a", "b"), ("x1", "x２"), ("ﬁ", "ﬂ"), ("n", "0efac81"[1:]), ("Å", "Å")]
+    for a, b in pairs:
+        if not (a.isidentifier() and b.isidentifier()) or a == b:
+            continue
+        env = jinja2.Environment()
+        src = "{% block " + a + " %}A{% endblock %}|{% block " + b + " %}B{% endblock %}"
+        fails = []
+        try:
+            code = env.compile(src, raw=True)
+        except jinja2.TemplateSyntaxError:
+            code = None  # rejected at compile time: acceptable
+        if code is not None:
+            tree = ast.parse(code)
+            funcs = [n.name for n in tree.body if isinstance(n, (ast.FunctionDef, ast.AsyncFunctionDef)) and n.name != "root"]
+            norm = [unicodedata.normalize("NFKC", f) for f in funcs]
+            if len(set(norm)) != 2:
+                fails.append(f"[nfkc-collision] blocks {a!r} and {b!r} are compiled to the function names {funcs}, which are the same Python identifier")
+            reg = [n for n in tree.body if isinstance(n, ast.Assign) and getattr(n.targets[0], "id", "") == "blocks"]
+            vals = [unicodedata.normalize("NFKC", v.id) for v in reg[0].value.values] if reg else []
+            if len(set(vals)) != 2 or [k.value for k in reg[0].value.keys] != [a, b]:
+                fails.append(f"[nfkc-collision] `blocks` does not map {a!r} and {b!r} to two different functions")
+            if not fails:
+                got = env.from_string(src).render()
+                if got != "A|B":
+                    fails.append(f"rendered {got!r}")
+        rs.append(Res(f"C04.emit.template.block_function_names[{a},{b}]", "refuted" if fails else "discharged", "table", 0, "; ".join(fails[:2]), "table",
+                      {"names": [a, b]} if fails else None))
+    return rs
+
+
+_bfn = FnTask("C04", "C04.emit.template.block_function_names", block_function_names, "table", lambda w: native_block_names(w))
+_bfn.finding_key = lambda res: "nfkc-collision"
+
+
+
+def _block_replay(w):
+    v, d = native_inheritance(w)
+    return (v, d) if v else native_outside_blocks(w)
+
+
+EMIT_TASKS[0].replay_fn = _block_replay
+EMIT_TASKS += OUTPUT_CHECK_TASKS + [RequiredBlockTask(s) for s in (("R",), ("E", "R"), ("IE", "R"), ("R", "B"))] + [_bfn]
+
 RUNTIME_TASKS = [ContextInit(False), ContextInit(True), ContextSuper(), ContextDerived(), BlockRefInit(), BlockRefSuper(),
                  BlockRefRender("sync"), BlockRefRender("async"), BlockRefCallAsyncDispatch(), TemplateRef(), TemplateRefRepr()]
 
@@ -1551,6 +1850,9 @@ META = {
         "a block function asking for its parent occurs on the stack of its own name (C04.blocks.order: established by Context.__init__ and visit_Extends; "
         "emitted as context.super(<name>, block_<name>), checked in C04.emit.template)",
         "Output nodes have at least one child (the parser only creates non-empty Output nodes)",
+        "frame invariant: a top-level frame of a template in which an extends was already visited has require_output_check set (visit_Template sets it "
+        "on the root frame iff the template has an extends; Frame.__init__ copies it to inner / soft frames)",
+        "macro_body / macro_def are used through their C06 contracts in C04.emit.output_check.visit_CallBlock",
         "name mangling of TemplateReference.__context is uniform within the class (the attribute is only touched by __init__/__getitem__/__repr__, which are run together)",
         "shape bound of C04.emit.template[...]: the template body is one of 15 concrete top-level shapes; blocks nested in other statements are holes",
         "children's own emission (expressions, block bodies) is used through holes (modular)",
